@@ -187,6 +187,10 @@ def run(rep: Report, tier: str) -> None:  # noqa: C901
     # ---- R02.5 the builder the clause handlers rely on (real class, evaluated) ----
     rep.rule("R02.5", "SQLBuilder: every where() condition reaches the WHERE clause (conjunction) - the real class evaluated by E6")
     transp.builder_contract(P, rep, "R02.5", parts="w")
+    # ---- R02.6 a clause leaves its operand as it found it (the same dataset may be read by another statement) ----
+    rep.rule("R02.6", "clause validators (filter / calc / keep / drop / rename / sub / aggr ...) do not mutate the structure of their operand")
+    from sa.checks.c12 import operand_mutations
+    operand_mutations(P, rep, "R02.6", ("vtlengine.Operators.Clause",), floor=6)
     rep.assumptions = ["abstract structures: names and roles only; expressions inside calc/filter are opaque", "SQL: WHERE keeps the rows for which its predicate is TRUE",
                        "inside the clause handlers SQLBuilder is a recording stand-in; that the real class conjoins its where() conditions is decided by R02.5"]
 
